@@ -542,6 +542,8 @@ def r03_4(ctx, counts) -> RuleResult:
         is_parser_method = f.cls is not None and f.cls in parser_classes
         if f.name in ('__init__', 'build', 'create_tokenizer') and is_parser_method:
             continue
+        if getattr(f.node, '_verif_inlined_cleanup', False):
+            continue    # an ExitStack callback: its body is analysed where it was inlined as finally
         tc = try_context(f.node)
         for n in walk_local(f.node):
             tgts: list[ast.AST] = []
